@@ -2,6 +2,7 @@ package main
 
 import (
 	"fmt"
+	"math/rand"
 	"strings"
 )
 
@@ -96,6 +97,21 @@ func curatedWorlds() []wWorld {
 			fl.Msgs = append(fl.Msgs, m)
 		}
 		out = append(out, wWorld{Files: []wFile{fl}, Targets: []string{"len.proto"}})
+	}
+	// more than 256 siblings, every one with its own location: an index must not be narrowed to a
+	// byte anywhere on the path (round-2 seeded change C08-r2-m2)
+	{
+		fl := file("wide.proto", "wide", "proto2")
+		big := wMsg{Head: mh("Wide"), Nested: []wMsg{}}
+		en := wEnum{Name: "Big"}
+		for k := 0; k < 300; k++ {
+			big.Head.Fields = append(big.Head.Fields, f(fmt.Sprintf("f%d", k), k+1, 1, 5, ""))
+			en.Values = append(en.Values, wEnumVal{fmt.Sprintf("BIG_%d", k), int32(k)})
+		}
+		fl.Msgs = []wMsg{big}
+		fl.Enums = []wEnum{en}
+		genLocs(rand.New(rand.NewSource(7)), &fl)
+		out = append(out, wWorld{Files: []wFile{fl}, Targets: []string{"wide.proto"}})
 	}
 	return append(out, hubWorlds()...)
 }
